@@ -161,7 +161,7 @@ func EnumerateDirect(yield func(DirectCase) bool) {
 	}
 }
 
-var methods = []string{"post", "post", "put", "patch", "delete"}
+var methods = []string{"post", "post", "put", "patch", "delete", "options"}
 
 // GenStack draws an API description and 1-10 requests against it.
 func GenStack(t *rapid.T) StackCase {
@@ -174,6 +174,7 @@ func GenStack(t *rapid.T) StackCase {
 	}
 	c.Authz = rapid.SampledFrom(authzKinds).Draw(t, "authorizer")
 	c.Method = rapid.SampledFrom(methods).Draw(t, "method")
+	c.OptOut = c.Decl == "global" && rapid.Bool().Draw(t, "opt-out-sibling")
 	c.HandlerErr = rapid.Bool().Draw(t, "handler-observes-request")
 	c.Reqs = rapid.SliceOfN(rapid.Custom(func(t *rapid.T) Req {
 		q := Req{Vec: genVec(t, c.Alts)}
@@ -182,6 +183,9 @@ func GenStack(t *rapid.T) StackCase {
 			q.BadCT = rapid.IntRange(0, 2).Draw(t, "bad-content-type") == 0
 			q.BadAccept = rapid.IntRange(0, 2).Draw(t, "bad-accept") == 0
 			q.BadBody = rapid.IntRange(0, 2).Draw(t, "bad-body") == 0
+		}
+		for i, n := 0, rapid.SampledFrom([]int{0, 0, 1, 2, 3}).Draw(t, "extra-headers"); i < n; i++ {
+			q.Extra = append(q.Extra, rapid.SampledFrom(extraHeaders).Draw(t, "extra-header"))
 		}
 		return q
 	}), 1, 10).Draw(t, "requests")
